@@ -15,14 +15,25 @@ fn main() {
     let mut start = 0usize;
     if args.len() >= 4 && args[2] == "--start" { start = args[3].parse().unwrap(); }
     panic::set_hook(Box::new(|_| {}));
-    let child = std::thread::Builder::new()
-        .stack_size(1 << 30)
-        .spawn(move || run(&path, start))
+    // Watchdog: the worker reports after every case; a case that runs longer than the limit
+    // (an endless loop in the engine) ends the process, like a stack overflow does.
+    let limit_ms: u64 = std::env::var("VERIF_CASE_TIMEOUT_MS").ok().and_then(|v| v.parse().ok()).unwrap_or(4000);
+    let (tx, rx) = std::sync::mpsc::channel::<bool>();
+    let _child = std::thread::Builder::new()
+        .stack_size(64 << 20)
+        .spawn(move || { run(&path, start, &tx); let _ = tx.send(true); })
         .unwrap();
-    child.join().unwrap();
+    loop {
+        match rx.recv_timeout(std::time::Duration::from_millis(limit_ms)) {
+            Ok(true) => break,
+            Ok(false) => continue,
+            Err(std::sync::mpsc::RecvTimeoutError::Timeout) => { std::process::exit(3); },
+            Err(std::sync::mpsc::RecvTimeoutError::Disconnected) => { std::process::exit(4); },
+        }
+    }
 }
 
-fn run(path: &str, start: usize) {
+fn run(path: &str, start: usize, tx: &std::sync::mpsc::Sender<bool>) {
     let f = std::fs::File::open(path).expect("cannot open case file");
     let rd = std::io::BufReader::new(f);
     let mut idx = 0usize;
@@ -46,5 +57,6 @@ fn run(path: &str, start: usize) {
         };
         print!("\x02E {}\n", r.to_text());
         std::io::stdout().flush().unwrap();
+        let _ = tx.send(false);
     }
 }
